@@ -711,6 +711,39 @@ def joinComma : List (List Nat) → List Nat
   | [f] => f
   | f :: g :: r => f ++ (44 :: 32 :: joinComma (g :: r))
 
+/-! ## Every line is SET to its line width (TeX.2021.657–§664; the packing itself is property C15)
+
+The box reports the requested width; geometry also wants its contents, with the glue set as the
+box says, to fill that width. On the totals of a line (natural width `nat`, stretch and shrink
+per order) the identity `Σ set widths = width` is `nat·den + num·(total of the box's order) =
+width·den` with the box's ratio `num/den`, and the order must be the highest one with a
+non-zero total. A line is excused only where TeX itself gives up: nothing to stretch
+(underfull) or only finite shrink that is exhausted (overfull). -/
+
+def highestNonzero (t : List Int) : Nat :=
+  if t[3]?.getD 0 ≠ 0 then 3 else if t[2]?.getD 0 ≠ 0 then 2 else if t[1]?.getD 0 ≠ 0 then 1 else 0
+
+/-- `st`, `sh` = total stretch / shrink of orders normal, fil, fill, filll. Returns the violated
+clause, `none` = the line is set to its width (or excused). -/
+def lineSetVerdict (nat width : Int) (st sh : List Int) (order : Nat) (num den : Int) : Option String :=
+  let x := width - nat
+  if 0 < x then
+    let o := highestNonzero st
+    let total := st[o]?.getD 0
+    if total = 0 then none                                   -- underfull, nothing to set
+    else if order ≠ o then some "stretch-order"
+    else if den = 0 ∨ nat * den + num * total ≠ width * den then some "stretch-set-width"
+    else none
+  else if x < 0 then
+    let o := highestNonzero sh
+    let total := sh[o]?.getD 0
+    if total = 0 then none                                   -- nothing can shrink
+    else if o = 0 ∧ total < -x then none                     -- genuinely overfull (finite shrink exhausted)
+    else if order ≠ o then some "shrink-order"
+    else if den = 0 ∨ nat * den + num * total ≠ width * den then some "shrink-set-width"
+    else none
+  else none
+
 /-! ## plain TeX's defaults (what `plain_tex_defaults()` promises) -/
 
 /-- `\sfcode` after INITEX + plain.tex (`\nonfrenchspacing`): uppercase letters 999; `)`, `'`, `]`
